@@ -199,7 +199,7 @@ func (f *Frame) scanNode(n ast.Node, t *Targets, seen map[*ast.FuncDecl]bool, de
 				case "maps.Clone", "go/ast.NewIdent", "fmt.Errorf", "errors.New":
 					t.alloc = true
 					return true
-				case "fmt.Sprintf", "slices.Contains", "strconv.Quote", "strings.Compare", "strings.HasPrefix", "strings.HasSuffix":
+				case "fmt.Sprintf", "slices.Contains", "slices.Clone", "strconv.Quote", "strings.Compare", "strings.HasPrefix", "strings.HasSuffix":
 					return true
 				}
 				if fn.Pkg().Path() == "log/slog" {
@@ -1017,6 +1017,8 @@ func (f *Frame) yieldSeq(it Term, elem types.Type) Term {
 	if !vc.ufs[name] {
 		vc.ufs[name] = true
 		vc.funDecls = append(vc.funDecls, fmt.Sprintf("(declare-fun %s (%s) %s)", name, it.Sort, SliceSort(es)))
+		// a yielded sequence has a length like every other slice
+		vc.funDecls = append(vc.funDecls, fmt.Sprintf("(assert (forall ((x! %s)) (! (>= (slen (%s x!)) 0) :pattern ((%s x!)))))", it.Sort, name, name))
 	}
 	return app(SliceSort(es), name, it)
 }
